@@ -196,6 +196,18 @@ def run_config(cfg, res):
             return
         wk = Walker(w, res, cfg)
         start = w.prefix
+        bare_href_tail = None
+        if cfg.get("bare_user_col"):
+            # user data kept in a bare git repository below the calendar home (the layout of older versions,
+            # or a `git clone --bare` into the data directory)
+            try:
+                w.stop()
+                w.provision_bare(cfg["principal"].rstrip("/") + "/calendars/oldbare/", "calendar", meta="gitconfig")
+                w.start()
+                bare_href_tail = "/oldbare/"
+                res.count("configs_with_a_bare_user_collection")
+            except Exception as e:  # noqa
+                res.inconclusive.append("could not provision the bare collection: %r" % (e,))
         snap = None
         created = []
         deleted_defaults = {}
@@ -216,6 +228,10 @@ def run_config(cfg, res):
                     wk.viol(f"{wk.sigbase()}/no-calendar-reachable", f"[{wk.shape()} life {life}] discovery reaches no calendar collection; homes {d['homes']!r}")
                 if not d["addressbooks"] and "addressbooks" not in deleted_defaults.values():
                     wk.viol(f"{wk.sigbase()}/no-addressbook-reachable", f"[{wk.shape()} life {life}] discovery reaches no address book collection; homes {d['homes']!r}")
+            if bare_href_tail and "calendars" in d["homes"]:
+                t = d["homes"]["calendars"].rstrip("/") + bare_href_tail
+                if t not in created:
+                    created.append(t)
             for t in created:
                 if t not in d["calendars"] and t not in d["addressbooks"]:
                     wk.viol(f"{wk.sigbase()}/user-created-collection-not-reachable", f"[{wk.shape()} life {life}] {t} (created by the user in an earlier life) is not reached by discovery")
@@ -313,7 +329,7 @@ def all_configs(seed):
     out = []
     for fe, mode, prefix, principal, restarts in itertools.product(FES, MODES, PREFIXES, PRINCIPALS, RESTARTS):
         out.append({"fe": fe, "mode": mode, "prefix": prefix, "principal": principal, "restarts": restarts, "seed": seed * 1000 + len(out),
-                    "delete_default": [None, "calendars", "addressbooks"][len(out) % 3] if restarts >= 1 else None})
+                    "delete_default": [None, "calendars", "addressbooks"][len(out) % 3] if restarts >= 1 else None, "bare_user_col": len(out) % 4 == 1})
     return out
 
 
@@ -327,7 +343,7 @@ def check(tier, seed, t0):
             for mode in MODES:
                 for k in range(4):
                     picked.append({"fe": fe, "mode": mode, "prefix": PREFIXES[(k + len(picked)) % 3], "principal": PRINCIPALS[k], "restarts": [1, 0, 3, 1][k], "seed": seed * 1000 + len(picked),
-                                   "delete_default": [("addressbooks" if mode != "autocreate" else None), None, "calendars", None][k]})
+                                   "delete_default": [("addressbooks" if mode != "autocreate" else None), None, "calendars", None][k], "bare_user_col": k == 1})
         cfgs = picked
     n = 16
     shards = [{"configs": cfgs[i::n]} for i in range(n) if cfgs[i::n]]
@@ -337,6 +353,7 @@ def check(tier, seed, t0):
     guards = [("discovery walks", c.get("walks", 0), 40 if tier == "quick" else 400), ("well-known walks", c.get("wellknown_walks_ok", 0) + 0, 50 if tier == "quick" else 500),
               ("restarts", c.get("restarts", 0), 20 if tier == "quick" else 250), ("collections compared across restarts", c.get("collections_compared", 0), 40 if tier == "quick" else 500),
               ("members compared across restarts", c.get("members_compared", 0), 40 if tier == "quick" else 500),
+              ("configurations with user data in a bare repository below the calendar home", c.get("configs_with_a_bare_user_collection", 0), 4 if tier == "quick" else 40),
               ("collections deleted and re-created with another type at the same URL", c.get("collections_recreated_with_another_type", 0), 10 if tier == "quick" else 100),
               ("default collections deleted by the user and re-created by a --defaults restart", c.get("deleted_default_recreated", 0), 2 if tier == "quick" else 8)]
     return common.finish(PROP, tier, seed, "exploration", merged, failures, RULE + f"; {len(cfgs)} configurations this run", t0, guards=guards,
